@@ -51,6 +51,28 @@ def run(ck):
     ck.floor("C13-G", "MIR bodies of the library", len(f["mir"]), 150)
     ck.floor("C13-G", "MIR call sites of the library", n_calls, 400)
 
+    # C13-W: a #![no_std] crate that uses the attribute macro (the witness interfaces) builds, and its crate graph has
+    # neither alloc nor std: the generated code names nothing outside core / microscpi
+    import witness
+    fs, specs, failures = witness.build(ck, ck.seed, 40 if ck.tier == "quick" else 400)
+    wit = fs.crate("wit.rlib")
+    for (sp, msg) in failures:
+        ck.bad("C13-W", "witness:%s:no_std-build" % (sp["mod"] if sp else "crate"), "a #![no_std] crate using #[microscpi::interface] does not build: %s" % msg[:600])
+    if wit is not None:
+        wc = [c["name"] for c in wit.facts["crates"]]
+        ck.judge(wit.facts["no_std"], "C13-W", "witness:no_std", "the witness crate is #![no_std]", "witness crate is not no_std (harness error)")
+        ck.judge(not (set(wc) & ALLOC_CRATES), "C13-W", "witness:crate-graph", "no_std user crate with %d macro-generated interfaces: crate graph %s" % (len(specs), wc),
+                 "a no_std crate using the macro loads %s" % sorted(set(wc) & ALLOC_CRATES))
+        nbad = []
+        for m in wit.facts["mir"]:
+            for b in m["blocks"]:
+                t = b["term"]
+                if t["k"] == "Call" and t.get("callee_crate") in ALLOC_CRATES:
+                    nbad.append((m["def"], t["callee"]))
+        ck.judge(not nbad, "C13-W", "witness:mir-callee-crates", "generated dispatchers call nothing in alloc/std", "generated code calls %s" % nbad[:3])
+    elif not failures:
+        ck.bad("C13-W", "witness:build", "no facts for the no_std witness crate")
+
     if ck.tier == "thorough":
         std = ctx.lib(ck, "std")
         if std is None:
